@@ -11,6 +11,13 @@ pub struct State {
     pub pos: CaretPos,
 }
 
+/// Indentation level of a line whose first token is in the given (1-indexed) column.
+///
+/// Indents and dedents are differences of levels, so that they always add up to zero.
+fn level(column: i32) -> i32 {
+    (column - 1) / 4
+}
+
 impl State {
     pub fn new() -> State {
         let pos = CaretPos::new(1, 1);
@@ -24,7 +31,7 @@ impl State {
     }
 
     pub fn flush_indents(&mut self) -> Vec<Lex> {
-        let amount = ((self.cur_indent) / 4) as usize;
+        let amount = level(self.cur_indent) as usize;
         self.cur_indent = 1;
         vec![Lex::new(self.pos, Token::Dedent); amount]
     }
@@ -47,10 +54,10 @@ impl State {
         self.token_this_line = true;
         let mut res = self.newlines.pop().map_or(vec![], |nl| vec![nl]);
         if self.line_indent >= self.cur_indent {
-            let amount = ((self.line_indent - self.cur_indent) / 4) as usize;
+            let amount = (level(self.line_indent) - level(self.cur_indent)) as usize;
             res.append(&mut vec![Lex::new(self.pos, Token::Indent); amount]);
         } else {
-            let amount = ((self.cur_indent - self.line_indent) / 4) as usize;
+            let amount = (level(self.cur_indent) - level(self.line_indent)) as usize;
             res.append(&mut vec![Lex::new(self.pos, Token::Dedent); amount]);
             res.push(Lex::new(self.pos, Token::NL));
         }
